@@ -43,10 +43,15 @@ def shards(tier, seed):
             items.append({"what": "tiny", "len": L, "part": 0, "parts": 1})
         for p in range(48):
             items.append({"what": "tiny", "len": 5, "part": p, "parts": 48})
+    for i in range(2 if tier == "quick" else 8):
+        items.append({"what": "machine", "n": 60 if tier == "quick" else 800, "seed": seed * 1000 + 900 + i})
     return items
 
 
 def run_shard(item, stats):
+    if item.get("what") == "machine":
+        from vf import machines
+        return machines.machine_search(machines.cache_machine(stats, ('invariant',), 'c12', False), stats, item["n"], item["seed"])
     km = core.known_matcher(ID, globals().get("known_match"))
     if item["what"] == "history":
         core.hyp_search(cachehist.history_case(max_ops=item["ops"]), check, stats, item["n"], item["seed"], km)
